@@ -393,6 +393,9 @@ func genModel(t *rapid.T, o genOpts) kc.Model {
 	for _, d := range doms {
 		m.Domains = append(m.Domains, kc.Mapping{Domain: d, Realm: rapid.SampledFrom(rp).Draw(t, "maprealm")})
 	}
+	if len(m.Domains) >= 2 && rapid.IntRange(0, 3).Draw(t, "splitdomains") == 0 {
+		m.DomainSplit = rapid.IntRange(1, len(m.Domains)-1).Draw(t, "splitat") // [domain_realm] in two occurrences
+	}
 
 	on := rapid.SliceOfNDistinct(rapid.SampledFrom(otherSections), 0, 2, rapid.ID[string]).Draw(t, "othersections")
 	for _, n := range on {
@@ -908,6 +911,12 @@ func genResolve(t *rapid.T) Case {
 	if rapid.Bool().Draw(t, "withlib") {
 		m.Lib = baseLib
 		m.Order = []string{"libdefaults", "domain_realm"}
+		if rapid.Bool().Draw(t, "libafter") {
+			m.Order = []string{"domain_realm", "libdefaults"}
+		}
+	}
+	if len(m.Domains) >= 2 && rapid.IntRange(0, 2).Draw(t, "splitdomains") == 0 {
+		m.DomainSplit = rapid.IntRange(1, len(m.Domains)-1).Draw(t, "splitat")
 	}
 	if rapid.IntRange(0, 3).Draw(t, "dot") == 0 {
 		host += "."
